@@ -68,3 +68,18 @@ Definition spec_ok (c : case) : bool :=
     if k_built_clause c then built_clause_b tr es
     else lifecycle_b tr es && lookups_ok (k_Q c) (init_estate (k_cfg c)) (k_ops c) (k_obs c)
   end.
+
+(* debugging aid: index of the first op on which model and implementation differ *)
+Fixpoint first_diff (i : N) (a b : list (res * list event)) : option (N * option (res * list event) * option (res * list event)) :=
+  match a, b with
+  | [], [] => None
+  | x :: a', y :: b' => if eqb_obs x y then first_diff (N.succ i) a' b' else Some (i, Some x, Some y)
+  | x :: _, [] => Some (i, Some x, None)
+  | [], y :: _ => Some (i, None, Some y)
+  end.
+
+Fixpoint first_guard_fail (Q : N) (i : N) (es : estate) (ops : list op) (obs : list (res * list event)) : option (N * op) :=
+  match ops, obs with
+  | o :: r, (rs, evs) :: obs' => if eguard Q es o then first_guard_fail Q (N.succ i) (eupd es o rs evs) r obs' else Some (i, o)
+  | _, _ => None
+  end.
